@@ -7,6 +7,7 @@ Ops
 * `load (<f:bits threshold> <statIntervalMs> <maxQueueingTimeMs>)* [other=<n>]` — the complete list of throttling rules of the
   resource, in check order; also in the middle of a case (a reload: `Throttle.reload` with the code's rule equality).
   `other=<n>` (a rule for another resource, so that an otherwise identical list is a real reload) is ignored here.
+* `clear` / `clearres` — `flow.ClearRules()` / `flow.ClearRulesOfResource(res)`: no rule in force (as `load` with an empty list)
 * `clock <ns>`                                   — virtual time
 * `req <batch>`   `=> (L | S<ns>)* (pass|block)` — one request through all rules (`Throttle.chain`): `L` per checker that reached
   its timestamp (`th.load` hook), `S<ns>` per sleep, then the verdict; the clock advances by the sleeps
@@ -244,6 +245,12 @@ def step (oracle : Bool) (s : St) (ts : List String) (line : String) : St × Opt
       let hi := s.orc.foldl (fun a o => max a o.prevHi) 0
       ({ s with loaded := true, ctls := reload ruleEq s.ctls rules, orc := orcReload s.orc hi rules }, none)
     | none => (s, some "bad-op")
+  | ["clear"] =>        -- flow.ClearRules(): no rule in force; the next load builds fresh checkers
+    if !s.decls.isEmpty then (s, some "bad-op") else
+    ({ s with loaded := true, ctls := reload ruleEq s.ctls [], orc := [] }, none)
+  | ["clearres"] =>     -- flow.ClearRulesOfResource(res): the same for this resource
+    if !s.decls.isEmpty then (s, some "bad-op") else
+    ({ s with loaded := true, ctls := reload ruleEq s.ctls [], orc := [] }, none)
   | ["clock", t] =>
     match t.toNat? with
     | some t => if s.loaded then ({ s with now := some (t : Int) }, none) else (s, some "bad-op")
